@@ -261,6 +261,11 @@ def truth(v):
         if isinstance(v, SArr):
             raise OutOfSubset('truth value of an array')
         return v.length > 0
+    if isinstance(v, SObj):
+        if issubclass(v.cls, tuple):
+            return len(getattr(v.cls, '_fields', ())) > 0
+        if not any('__bool__' in c.__dict__ or '__len__' in c.__dict__ for c in v.cls.__mro__):
+            return True
     if isinstance(v, Sym):
         raise OutOfSubset(f'truth of {type(v).__name__}')
     return bool(v)
